@@ -26,17 +26,34 @@ structure Groups where
 inductive Coord | slide | patient
   deriving DecidableEq, Repr, Inhabited
 
+/-- what `iter_tiled_full_frame_data` reads to decide how many channels (optical paths / segments) the image has -/
+structure ChannelSource where
+  sopClass : String
+  /-- SegmentationType (segmentations only; "" otherwise) -/
+  segmentationType : String := ""
+  /-- number of items of SegmentSequence -/
+  segments : Nat := 0
+  /-- NumberOfOpticalPaths, if present -/
+  declaredPaths : Option Nat := none
+  /-- number of items of OpticalPathSequence -/
+  pathItems : Nat := 0
+  deriving Repr, Inhabited
+
 /-- what `iter_tiled_full_frame_data` reads of a TILED_FULL image -/
 structure TiledFull where
   rows : Int
   cols : Int
   totalRows : Int
   totalCols : Int
-  /-- number of channels: optical paths (NumberOfOpticalPaths, else the length of OpticalPathSequence), segments, 1 for LABELMAP -/
-  channels : Nat
+  source : ChannelSource
   /-- TotalPixelMatrixFocalPlanes, if present -/
   focalPlanes : Option Nat
   deriving Repr, Inhabited
+
+/-- number of channels as the library derives it (regenerated decision, TC10g): segments of a segmentation (one channel for a
+LABELMAP), else the declared number of optical paths, else the number of items of OpticalPathSequence -/
+def TiledFull.channels (tf : TiledFull) : Nat :=
+  Gen.tiledChannelCount tf.source.sopClass tf.source.segmentationType tf.source.segments tf.source.declaredPaths tf.source.pathItems
 
 structure ImageDs where
   /-- answer of `get_image_coordinate_system` (none: no frame of reference / no position information) -/
@@ -131,7 +148,8 @@ def frameNest (order : List String) (nch npl : Nat) (tiles : List (Int × Int)) 
 def tiledFramePosition (ds : ImageDs) (tf : TiledFull) (frameNumber : Int) : Except ErrKind (List Rat) :=
   match ds.totalOrigin, ds.shared.measures with
   | some (x, y, z), some (ps, sbs) =>
-    if tf.rows = 0 ∨ tf.cols = 0 then .error .other               -- ZeroDivisionError
+    if !Gen.tiledAllowedSopClasses.contains tf.source.sopClass then .error .value     -- not a slide image / segmentation
+    else if tf.rows = 0 ∨ tf.cols = 0 then .error .other               -- ZeroDivisionError
     else
       let start := genInt (Gen.tiledFrameStart frameNumber)
       let stop := genInt (Gen.tiledFrameStop frameNumber)
